@@ -195,6 +195,23 @@ func (s *State) privSnapshot() []privSaved {
 	}
 	priv := s.c.eng.privateAllocs(topFn(s.c.fn))
 	var out []privSaved
+	// the cells of captured variables are known only to the spawner and this closure; the spawner does not
+	// write them after the go statement (assumed), so no callee of this body can change them
+	if s.c.fn.Parent() != nil {
+		for _, fv := range s.c.fn.FreeVars {
+			v, ok := s.c.entryFrees[fv]
+			if !ok || v.S == "" {
+				continue
+			}
+			pt := derefType(fv.Type())
+			if pt == nil || kindOf(pt) == kStruct || kindOf(pt) == kArray {
+				continue
+			}
+			ad := &Addr{Space: "cell", Ref: v.S, T: pt}
+			out = append(out, privSaved{ad, s.pureLoad(ad)})
+		}
+		s.c.assumed["captured variables of "+s.c.name+" are not written by the spawner after the go statement"] = true
+	}
 	for a, ok := range priv {
 		if !ok {
 			continue
